@@ -114,8 +114,9 @@ type RunCfg struct {
 	Contracts bool // contract creation / self-destruct / calls in the mix
 	UTXO      bool // confidential transactions in the mix
 	Wallets   int
-	W         struct{ Next, Future, Stale, Conflict, Dup, Under, Over, BadGas, Fund, Spend, SpendAcc, KIConflict, KIDup, Create, CCall, Kill, ToFuture, SpendAll, Respent int }
+	W         struct{ Next, Future, Stale, Conflict, Dup, Under, Over, BadGas, Fund, Spend, SpendAcc, KIConflict, KIDup, Create, CCall, Kill, ToFuture, SpendAll, Respent, CreateFail int }
 	A         struct{ Start, Release, Reap, Block, Tick, Extra int }
+	VMFailExt int // of 8: share of another proposer's own transactions that fail in execution
 	ExtRate   int // of 8: share of block steps that build another proposer's block
 	HeavyPct  int // of 8: share of steps that also run the execute-the-offer oracle
 }
@@ -142,6 +143,7 @@ type Engine struct {
 	trace    []string
 	steps    int
 
+	failed        []types.Tx // committed transactions whose receipt says failed
 	contracts     []*Contract
 	contractAt    map[common.Address]*Contract
 	pendingCreate []common.Address // targets of creations generated and not committed yet
@@ -159,7 +161,9 @@ type Engine struct {
 	dropGood    time.Duration
 	sinceCommit bool
 	flushing    bool
-	byzTarget   *Owned // ByzBlock("ki-later") re-spends this output when set
+	twist       *lk.Key // signSpend adds this small-order point to every key image
+	raceNext    bool    // the next commit parks inside CommitBlock and lets clients run
+	byzTarget   *Owned  // ByzBlock("ki-later") re-spends this output when set
 	stopped     bool
 }
 
@@ -269,6 +273,8 @@ func drawCfg(c *kernel.Ctx, opt Options) RunCfg {
 
 	w := &rc.W
 	w.Next, w.Future, w.Stale, w.Conflict, w.Dup, w.Under, w.Over, w.BadGas = 10, t.Range(0, 6), t.Range(0, 3), t.Range(0, 3), t.Range(0, 4), t.Range(0, 2), t.Int(2), t.Int(2)
+	w.CreateFail = t.Range(0, 2)
+	rc.VMFailExt = t.Range(0, 3)
 	a := &rc.A
 	a.Start, a.Release, a.Reap, a.Block, a.Tick = 10, t.Range(6, 14), t.Range(1, 3), t.Range(1, 5), t.Range(0, 2)
 	if !opt.NoContracts && t.Bool(1, 3) {
@@ -422,6 +428,19 @@ func (e *Engine) heldCleanup(afterCommit, emptyQueue bool) {
 	queued := 1
 	if emptyQueue {
 		_, _, queued = e.W.Chain.Mempool.Stats()
+		// "not on offer and the queue is empty => the node does not hold it" is
+		// only true while the offer shows the whole executable list: a reap cut
+		// by MaxReapSize / UTXOSize hides the list's tail
+		mc := e.W.Cfg.Mem
+		utxoTyped := 0
+		for _, tx := range e.offered {
+			if tx.TypeName() == types.TxUTXO {
+				utxoTyped++
+			}
+		}
+		if len(e.offered) >= mc.MaxReapSize || utxoTyped >= mc.UTXOSize {
+			queued = 1
+		}
 	}
 	for _, u := range e.W.Users {
 		a := u.Addr
@@ -603,7 +622,7 @@ func (e *Engine) gen() *MTx {
 	t := e.Work
 	w := e.Cfg.W
 	u := e.W.Users[t.Int(len(e.W.Users))]
-	kind := []string{"next", "future", "stale", "conflict", "dup", "under", "over", "badgas", "fund", "spend", "spendacc", "kiconflict", "kidup", "create", "ccall", "kill", "tofuture", "spendall", "respent"}[t.Pick(w.Next, w.Future, w.Stale, w.Conflict, w.Dup, w.Under, w.Over, w.BadGas, w.Fund, w.Spend, w.SpendAcc, w.KIConflict, w.KIDup, w.Create, w.CCall, w.Kill, w.ToFuture, w.SpendAll, w.Respent)]
+	kind := []string{"next", "future", "stale", "conflict", "dup", "under", "over", "badgas", "fund", "spend", "spendacc", "kiconflict", "kidup", "create", "ccall", "kill", "tofuture", "spendall", "respent", "createfail"}[t.Pick(w.Next, w.Future, w.Stale, w.Conflict, w.Dup, w.Under, w.Over, w.BadGas, w.Fund, w.Spend, w.SpendAcc, w.KIConflict, w.KIDup, w.Create, w.CCall, w.Kill, w.ToFuture, w.SpendAll, w.Respent, w.CreateFail)]
 	amt := e.amount(t)
 	to := e.recipient(t, u)
 	gap := uint64(t.Range(1, 3))
@@ -620,7 +639,7 @@ func (e *Engine) gen() *MTx {
 			u = e.W.Users[m.User]
 			c = e.committedNonce(u.Addr)
 		}
-	case "create", "ccall", "kill", "tofuture":
+	case "create", "ccall", "kill", "tofuture", "createfail":
 		m = e.genContract(kind, u, pick)
 		if m != nil && m.User >= 0 {
 			u = e.W.Users[m.User]
@@ -990,6 +1009,11 @@ func (e *Engine) onDone(f *flight) {
 				return
 			}
 		}
+		if f.m.Kind == "kitorsion" {
+			if e.Violate("torsion-accepted", "mempool-accepts-key-image-outside-prime-order-subgroup", "AddTx returned nil for %s whose key image(s) %s carry a small-order component (not in the prime-order subgroup): the spent set compares bytes, so an output spent under I can be spent again under I+T", short(m.Hash), kiLabel(m.KIs)) {
+				return
+			}
+		}
 		if m.Kind == "kidup" || (f.m.Kind == "kidup") {
 			if e.Violate("kidup-accepted", "mempool-accepts-duplicate-key-image-in-tx", "AddTx returned nil for %s which carries the same key image twice", short(m.Hash)) {
 				return
@@ -1065,6 +1089,9 @@ func (e *Engine) stepTick() {
 
 // stepBlock produces and commits one block.
 func (e *Engine) stepBlock() {
+	// one commit in three runs with client steps interleaved INSIDE CommitBlock
+	e.raceNext = e.Sch.Bool(1, 3)
+	defer func() { e.raceNext = false }()
 	if e.Sch.Int(8) < e.Cfg.ExtRate {
 		e.externalBlock()
 		return
@@ -1120,7 +1147,13 @@ func (e *Engine) txLabel(tx types.Tx) string {
 }
 
 func (e *Engine) commit(b *types.Block, what string) *types.Block {
-	res := e.W.Commit(b)
+	var res CommitResult
+	if e.raceNext {
+		e.raceNext = false
+		res = e.commitRace(b)
+	} else {
+		res = e.W.Commit(b)
+	}
 	if res.Err != nil {
 		e.C.HarnessTrouble("commit of a %s block failed: %v (%s)", what, res.Err, e.describe(b))
 		e.Stop()
@@ -1241,11 +1274,26 @@ func (e *Engine) externalBlock() {
 					kindExt = "create"
 				}
 			}
+			if cand == nil && t.Int(8) < e.Cfg.VMFailExt {
+				// a transfer that is included, pays for nothing and moves nothing:
+				// the gas can be bought, the value is not covered after that
+				// (fails in execution, must still consume its nonce)
+				// (the value is far above anything the sender can hold: the
+				// simulated balance here is a lower bound of the real one)
+				bal := led.Get(u.Addr).Balance
+				val := new(big.Int).Add(new(big.Int).Mul(bal, big.NewInt(2)), big.NewInt(1e18))
+				f := u.Transfer(n, e.W.Sinks[t.Int(len(e.W.Sinks))], val, 0, nil)
+				fee := new(big.Int).Mul(new(big.Int).SetUint64(f.Gas()), f.GasPrice())
+				if bal.Sign() > 0 && bal.Cmp(fee) >= 0 {
+					cand = f
+					kindExt = "vmfail"
+				}
+			}
 			if cand == nil {
 				amt := big.NewInt(int64(2000 + t.Int(5000)))
 				cand = u.Transfer(n, e.W.Sinks[t.Int(len(e.W.Sinks))], amt, 0, nil)
 			}
-			if led.Get(u.Addr).Balance.Cmp(Cost(cand)) < 0 {
+			if kindExt != "vmfail" && led.Get(u.Addr).Balance.Cmp(Cost(cand)) < 0 {
 				break
 			}
 			m := e.record(u, cand, kindExt)
@@ -1429,4 +1477,106 @@ done:
 		"size": mc.Size, "future": mc.FutureSize, "maxReap": mc.MaxReapSize, "acctQueue": mc.AccountQueue, "removeFuture": mc.RemoveFutureTx, "utxo": e.Cfg.UTXO, "contracts": e.Cfg.Contracts, "utxoSize": mc.UTXOSize,
 		"steps": e.steps, "blocks": nBlocks, "committed": nTx, "generated": len(e.all), "trace": e.trace,
 	})
+}
+
+// commitRace commits b with the committing goroutine parked at a tape-chosen
+// log line of CommitBlock while client steps run: a prepared rival (a contract
+// creation, whose basic check needs no state lock, carrying the nonce the
+// sender will have right after this block while the pool holds another
+// transaction with that nonce) and/or releases of parked clients. At the park
+// point after the speculative state was replaced the committer holds the pool
+// lock on a correct tree: the client simply waits behind it (normal outcome).
+func (e *Engine) commitRace(b *types.Block) CommitResult {
+	t := e.Sch
+	at := []string{ParkStateReplaced, ParkStateReplaced, ParkStateReplaced, ParkBeforeSave, ParkCommitStart}[t.Int(5)]
+	pickRel := t.Int(1 << 16)
+	steps := 1 + t.Int(2)
+	useRival := t.Bool(2, 3)
+	if at == ParkStateReplaced {
+		steps = 1 // one waiter behind the committer's locks: the wake-up order of several is not reproducible
+	}
+	var rival *MTx
+	if useRival {
+		rival = e.prepareRival(b)
+	}
+	res, parked := e.W.CommitRace(b, at, func() {
+		for i := 0; i < steps; i++ {
+			if rival != nil && i == 0 {
+				e.Tracef("  inside CommitBlock (%q): rival u%d n%d %s", at, rival.User, rival.Nonce, short(rival.Hash))
+				e.Submit(rival, false, false)
+				e.C.Probe("race-rival-submitted")
+				e.raceObserve(at)
+				continue
+			}
+			var ok []*flight
+			for _, f := range e.parked() {
+				if e.releasable(f) {
+					ok = append(ok, f)
+				}
+			}
+			if len(ok) == 0 {
+				break
+			}
+			f := ok[(pickRel+i)%len(ok)]
+			e.Tracef("  inside CommitBlock (%q): release #%d", at, f.sub.ID)
+			e.W.Release(f.sub)
+			e.C.Probe("race-release")
+			if !f.sub.Done() && !f.sub.Parked() && !f.sub.ReachedState() {
+				e.C.Probe("race-client-waits-behind-committer")
+			}
+			e.raceObserve(at)
+		}
+		e.raceObserve(at)
+	})
+	if parked {
+		e.C.Probe("commit-parked/" + at)
+	}
+	e.collect()
+	return res
+}
+
+// raceObserve lets the model look at the pool between a client step taken
+// inside CommitBlock and the rest of the commit, where that is a quiescent
+// point: at the park points before the block is stored the committer holds no
+// lock and the pool still lives on the pre-block state (what the node decides
+// there, e.g. dropping an uncovered transaction at a promotion, must be judged
+// against that state, not against the one after the commit).
+func (e *Engine) raceObserve(at string) {
+	if at == ParkStateReplaced || e.Stopped() {
+		return
+	}
+	e.collect()
+	for _, f := range e.inflight {
+		if !f.sub.Done() && !f.sub.Parked() {
+			return
+		}
+	}
+	e.oracle(false)
+}
+
+// prepareRival builds a transaction for the moment inside CommitBlock: from a
+// sender that can pay a creation and will still have pending transactions
+// after block b, with the nonce that sender has right after b.
+func (e *Engine) prepareRival(b *types.Block) *MTx {
+	inBlock := map[common.Address]uint64{}
+	for _, tx := range b.Data.Txs {
+		if from, _, _, ok := AcctPart(tx); ok {
+			inBlock[from]++
+		}
+	}
+	need := new(big.Int).Mul(big.NewInt(2*gasCreate), GasPrice)
+	for _, min := range []uint64{2, 1} {
+		for _, u := range e.W.Users {
+			if uint64(len(e.offeredBy[u.Addr])) < inBlock[u.Addr]+min || e.remaining(u.Addr).Cmp(need) < 0 {
+				continue
+			}
+			n := e.committedNonce(u.Addr) + inBlock[u.Addr]
+			code := e.newCode()
+			tx := signedTx(u, types.NewContractCreation(n, big.NewInt(0), gasCreate, nil, code))
+			m := e.record(u, tx, "conflict")
+			m.Target = crypto.CreateAddress(u.Addr, n, code)
+			return m
+		}
+	}
+	return nil
 }
